@@ -101,8 +101,15 @@ def h5 (now : Nat) (ipOf : Nat → Nat) (T : Track) (e : Event) (o : StepObs) : 
      | _ => false)
   | _ => true
 
+/-- H4 (freshness): a challenge written to a connection is a value no connection of this server ever received before
+(the harness numbers challenge strings by first occurrence, so a re-issued value shows up under its old number). -/
+def h4 (T : Track) (o : StepObs) : Bool :=
+  match o.resp with
+  | .ch n => !T.env.seen.contains n
+  | _ => true
+
 def holdsStep (now : Nat) (ipOf : Nat → Nat) (T : Track) (e : Event) (o : StepObs) : Bool :=
-  h1 now ipOf T e o && h3 T e o && h5 now ipOf T e o
+  h1 now ipOf T e o && h3 T e o && h5 now ipOf T e o && h4 T o
 
 def Track.next (T : Track) (now : Nat) (e : Event) (o : StepObs) : Track :=
   ⟨o.st, T.env.track now T.prev.lookups.length e o.resp⟩
@@ -115,7 +122,7 @@ def holdsFrom (now : Nat) (ipOf : Nat → Nat) (T : Track) : List Event → List
 /-- what the observer knows about a server state -/
 def proj (s : Srv) : Track := ⟨obsState s, s.env⟩
 
-/-- **C03 on a whole history**: one observation per event, each satisfying H1 ∧ H3 ∧ H5. -/
+/-- **C03 on a whole history**: one observation per event, each satisfying H1 ∧ H3 ∧ H5 ∧ H4. -/
 def holds (h : Hdr) (es : List Event) (os : List StepObs) : Bool :=
   holdsFrom h.now h.ipOf (proj h.init) es os
 
